@@ -91,7 +91,7 @@ template <class Warm>
 void BuildMaybeSplit(TA& a, const json& c, Alpha& alpha, Warm warm)
 {
 	const json& ja = c.at("A");
-	if (!c.contains("split")) { BuildTA(a, ja, alpha); return; }
+	if (!c.contains("split")) { BuildTA(a, ja, alpha); ShareIfAsked(a, c); return; }
 	size_t k = c["split"].get<size_t>();
 	json first = ja, rest;
 	json r1 = json::array(), r2 = json::array();
@@ -103,6 +103,7 @@ void BuildMaybeSplit(TA& a, const json& c, Alpha& alpha, Warm warm)
 	SetStage("warm-up on the partial automaton");
 	try { warm(a); } catch (const std::exception&) { }
 	BuildTA(a, rest, alpha);
+	ShareIfAsked(a, c);
 }
 
 // the second operand of a pair operation.  bmode "copy": a copy of A (sharing its storage); "extend": a copy of A that is then
@@ -158,7 +159,7 @@ VDRIVE_OP(incl)
 	for (const Sel& sel : SELS) { v.push_back(swap ? runIncl(b, a, sel) : runIncl(a, b, sel)); }
 	res["v"] = v;
 	SetStage("readback");
-	res["A_after"] = ReadTA(a, alpha);
+	res["A_after"] = ReadTA(a, alpha); NoteKeep(res, alpha);
 	res["B_after"] = ReadTA(b, alpha);
 	return res;
 }
@@ -169,7 +170,7 @@ VDRIVE_OP(union)
 {
 	Alpha alpha;
 	if (c.contains("syms")) { alpha.RegisterAll(c["syms"]); }
-	TA a = MakeTA(c.at("A"), alpha);
+	TA a = MakeTA(c.at("A"), alpha); ShareIfAsked(a, c);
 	std::string bmode = c.value("bmode", "");
 	TA bc = MakeSecond(a, c, alpha);
 	const TA& b = (bmode == "alias") ? a : bc;
@@ -182,7 +183,7 @@ VDRIVE_OP(union)
 	json res;
 	res["R"] = ReadTA(r, alpha);
 	if (maps != "none") { res["mapL"] = StateMapToJson(ml); res["mapR"] = StateMapToJson(mr); }
-	res["A_after"] = ReadTA(a, alpha);
+	res["A_after"] = ReadTA(a, alpha); NoteKeep(res, alpha);
 	res["B_after"] = ReadTA(b, alpha);
 	return res;
 }
@@ -191,14 +192,14 @@ VDRIVE_OP(uniondisj)
 {
 	Alpha alpha;
 	if (c.contains("syms")) { alpha.RegisterAll(c["syms"]); }
-	TA a = MakeTA(c.at("A"), alpha);
+	TA a = MakeTA(c.at("A"), alpha); ShareIfAsked(a, c);
 	TA b = MakeTA(c.at("B"), alpha);
 	SetStage("UnionDisjointStates");
 	TA r = TA::UnionDisjointStates(a, b);
 	SetStage("readback");
 	json res;
 	res["R"] = ReadTA(r, alpha);
-	res["A_after"] = ReadTA(a, alpha);
+	res["A_after"] = ReadTA(a, alpha); NoteKeep(res, alpha);
 	res["B_after"] = ReadTA(b, alpha);
 	return res;
 }
@@ -208,7 +209,7 @@ VDRIVE_OP(isect)
 {
 	Alpha alpha;
 	if (c.contains("syms")) { alpha.RegisterAll(c["syms"]); }
-	TA a = MakeTA(c.at("A"), alpha);
+	TA a = MakeTA(c.at("A"), alpha); ShareIfAsked(a, c);
 	std::string bmode = c.value("bmode", "");
 	TA bc = MakeSecond(a, c, alpha);
 	const TA& b = (bmode == "alias") ? a : bc;
@@ -222,7 +223,7 @@ VDRIVE_OP(isect)
 	json res;
 	res["R"] = ReadTA(r, alpha);
 	if (maps != "none") { res["map"] = prodMapToJson(pm); }
-	res["A_after"] = ReadTA(a, alpha);
+	res["A_after"] = ReadTA(a, alpha); NoteKeep(res, alpha);
 	res["B_after"] = ReadTA(b, alpha);
 	return res;
 }
@@ -260,7 +261,7 @@ VDRIVE_OP(trim)
 	SetStage("IsLangEmpty");
 	res["empty"] = a.IsLangEmpty();
 	SetStage("readback");
-	res["A_after"] = ReadTA(a, alpha);
+	res["A_after"] = ReadTA(a, alpha); NoteKeep(res, alpha);
 	return res;
 }
 
@@ -337,7 +338,7 @@ VDRIVE_OP(sim)
 		}
 	}
 	SetStage("readback");
-	res["A_after"] = ReadTA(a, alpha);
+	res["A_after"] = ReadTA(a, alpha); NoteKeep(res, alpha);
 	return res;
 }
 
@@ -360,7 +361,7 @@ VDRIVE_OP(reduce)
 	SetStage("readback");
 	json res;
 	res["R"] = ReadTA(r, alpha);
-	res["A_after"] = ReadTA(a, alpha);
+	res["A_after"] = ReadTA(a, alpha); NoteKeep(res, alpha);
 	return res;
 }
 
@@ -380,7 +381,7 @@ VDRIVE_OP(compl)
 	json syms = json::array();
 	for (auto& kv : alpha.otf->GetSymbolDict()) { syms.push_back(json::array({kv.first.symbolStr, kv.first.rank})); }
 	res["alphabet"] = syms;
-	res["A_after"] = ReadTA(a, alpha);
+	res["A_after"] = ReadTA(a, alpha); NoteKeep(res, alpha);
 	return res;
 }
 
@@ -408,7 +409,7 @@ VDRIVE_OP(reindex)
 {
 	Alpha alpha;
 	if (c.contains("syms")) { alpha.RegisterAll(c["syms"]); }
-	TA a = MakeTA(c.at("A"), alpha);
+	TA a = MakeTA(c.at("A"), alpha); ShareIfAsked(a, c);
 	std::string how = c.at("how").get<std::string>();
 	json res;
 	if (how == "weak")
@@ -452,7 +453,7 @@ VDRIVE_OP(reindex)
 	}
 	else { throw std::runtime_error("vdrive: bad how"); }
 	SetStage("readback");
-	res["A_after"] = ReadTA(a, alpha);
+	res["A_after"] = ReadTA(a, alpha); NoteKeep(res, alpha);
 	return res;
 }
 
@@ -461,7 +462,7 @@ VDRIVE_OP(translsym)
 {
 	Alpha alpha;
 	if (c.contains("syms")) { alpha.RegisterAll(c["syms"]); }
-	TA a = MakeTA(c.at("A"), alpha);
+	TA a = MakeTA(c.at("A"), alpha); ShareIfAsked(a, c);
 	MapSymF f;
 	for (const json& e : c.at("symmap"))
 	{
@@ -473,7 +474,7 @@ VDRIVE_OP(translsym)
 	SetStage("readback");
 	json res;
 	res["R"] = ReadTA(r, alpha);
-	res["A_after"] = ReadTA(a, alpha);
+	res["A_after"] = ReadTA(a, alpha); NoteKeep(res, alpha);
 	return res;
 }
 
@@ -489,7 +490,7 @@ VDRIVE_OP(witness)
 	SetStage("readback");
 	json res;
 	res["R"] = ReadTA(r, alpha);
-	res["A_after"] = ReadTA(a, alpha);
+	res["A_after"] = ReadTA(a, alpha); NoteKeep(res, alpha);
 	return res;
 }
 
@@ -557,7 +558,7 @@ VDRIVE_OP(twin)
 {
 	Alpha alpha;
 	g_relCopy = c.value("relcopy", false);
-	TA a = MakeTA(c.at("A"), alpha);
+	TA a = MakeTA(c.at("A"), alpha); ShareIfAsked(a, c);
 	TA b = MakeSecond(a, c, alpha);
 	json v = json::array(), vt = json::array();
 	for (const Sel& sel : SELS) { v.push_back(runIncl(a, b, sel)); }
@@ -570,7 +571,7 @@ VDRIVE_OP(twin)
 	for (const Sel& sel : SELS) { vt.push_back(runIncl(a2, b2, sel)); }
 	json res;
 	res["v"] = v; res["v_twin"] = vt;
-	res["A_after"] = ReadTA(a, alpha);
+	res["A_after"] = ReadTA(a, alpha); NoteKeep(res, alpha);
 	res["B_after"] = ReadTA(b, alpha);
 	return res;
 }
@@ -946,7 +947,7 @@ VDRIVE_OP(incluptrace)
 {
 	Alpha alpha;
 	if (c.contains("syms")) { alpha.RegisterAll(c["syms"]); }
-	TA a = MakeTA(c.at("A"), alpha);
+	TA a = MakeTA(c.at("A"), alpha); ShareIfAsked(a, c);
 	TA b = MakeTA(c.at("B"), alpha);
 	std::vector<std::string> events;
 	g_stepSink = &events;
@@ -977,7 +978,7 @@ VDRIVE_OP(trimtrace)
 {
 	Alpha alpha;
 	if (c.contains("syms")) { alpha.RegisterAll(c["syms"]); }
-	TA a = MakeTA(c.at("A"), alpha);
+	TA a = MakeTA(c.at("A"), alpha); ShareIfAsked(a, c);
 	std::string mode = c.at("mode").get<std::string>();
 	std::vector<std::string> events;
 	g_stepSink = &events;
@@ -1017,7 +1018,7 @@ VDRIVE_OP(isecttrace)
 {
 	Alpha alpha;
 	if (c.contains("syms")) { alpha.RegisterAll(c["syms"]); }
-	TA a = MakeTA(c.at("A"), alpha);
+	TA a = MakeTA(c.at("A"), alpha); ShareIfAsked(a, c);
 	TA b = MakeTA(c.at("B"), alpha);
 	bool bu = c.value("bu", false);
 	std::vector<std::string> events;
@@ -1066,7 +1067,7 @@ VDRIVE_OP(incldowntrace)
 {
 	Alpha alpha;
 	if (c.contains("syms")) { alpha.RegisterAll(c["syms"]); }
-	TA a = MakeTA(c.at("A"), alpha);
+	TA a = MakeTA(c.at("A"), alpha); ShareIfAsked(a, c);
 	TA b = MakeTA(c.at("B"), alpha);
 	size_t k = c.at("selidx").get<size_t>();
 	if (k < 2 || k > 7) { throw std::runtime_error("vdrive: incldowntrace needs a downward selection"); }
